@@ -73,7 +73,7 @@ func checkTasks(p *Pipeline, scenario, engineName string) int {
 		if len(samples) < 3 {
 			samples = append(samples, m.Samples...)
 		}
-		perVariant[variant] = map[string]interface{}{"runs": m.Runs, "stats": m.Stats, "instrumentation": p.Instr, "determinism_selftest": det,
+		perVariant[variant] = map[string]interface{}{"runs": m.Runs, "stats": m.Stats, "instrumentation": p.Instr, "determinism_selftest": det, "random_corpus": p.RndStats,
 			"runs_per_hour": float64(m.Runs) / m.WallS * 3600, "distinct_interleavings": len(distinctResults(m)), "search_wall_s": m.WallS}
 		if exit != 0 {
 			break
